@@ -428,6 +428,9 @@ def c05_v1(ctx, R):
             R.inst('C05.V1', 'absent-final-token-is-MissingNewLine', match(o['ret'], perr('MissingNewLine')) or err_variant(o) in MISSING, expected=perr('MissingNewLine'), found=o['ret'], entry=fp)
             n += 1
     R.floor('v1 streaming instances', n, 30)
+    # a CR-free window below the limit, or a window whose CR is its last byte, is judged by the field parser (never a terminal verdict of its own)
+    for which in ('str', 'bytes'):
+        check_window(ctx, R, 'C05.V1', which, only=['no-cr-below-limit', 'cr-is-last-byte'])
 
 
 def fold_preds(a):
@@ -451,8 +454,9 @@ def fold_preds(a):
 
 def c04_w(ctx, R):
     """C04.W: the input reaches the field parser only through the window; acceptance needs the CRLF suffix"""
-    n = check_window(ctx, R, 'C04.W', 'str') + check_window(ctx, R, 'C04.W', 'bytes')
-    R.floor('v1 window instances', n, 8)
+    rows = ['cr-with-following-byte', 'cr-is-last-byte', 'no-cr-below-limit']
+    n = check_window(ctx, R, 'C04.W', 'str', only=rows) + check_window(ctx, R, 'C04.W', 'bytes', only=rows)
+    R.floor('v1 window instances', n, 6)
     m = model(ctx, R)
     ev, outs = m.fp_outs()
     if outs:
@@ -501,3 +505,130 @@ def c01_provenance_only(ctx, R, rule):
                 toks = tokens_in(v)
                 order.append(next(iter(toks))[2][1][1] if len(toks) == 1 else None)
             R.inst(rule, 'parser-field-order/' + var, order == [2, 3, 4, 5], expected='[2, 3, 4, 5]', found=str(order), entry=m.fp)
+
+
+def accept_conditions(src, text, var):
+    """spec acceptance condition of a canonical line of kind `var`, over the token predicates (conjunct name -> atom)"""
+    tk = lambda k: ('call', 'tok', (src, I(k)))
+    has = lambda k: ('call', 'has_tok', (src, I(k)))
+    n = T.mk_len(text)
+    A = {'window-non-empty': T.bnot(T.eq0(n)), 'window-at-most-107': T.cmp('Le', n, I(tables.V1_MAX)),
+         'token0=PROXY': T.eq(('bytes', tables.V1_PREFIX), tk(0)), 'token1-present': has(1),
+         'ends-with-CRLF': ('call', 'ends_with', (text, ('bytes', tables.V1_SUFFIX)))}
+    if var == 'Unknown':
+        A.update({'token1=UNKNOWN': T.eq(('bytes', tables.V1_UNKNOWN), tk(1)), 'final-token-present': has(2),
+                  'final-token=LF': T.eq(('bytes', b'\n'), tk(2)), 'nothing-after': T.bnot(has(3))})
+        return A
+    kw, aty = (tables.V1_TCP4, 'std::net::Ipv4Addr') if var == 'Tcp4' else (tables.V1_TCP6, 'std::net::Ipv6Addr')
+    A['token1=keyword'] = T.eq(('bytes', kw), tk(1))
+    for k in range(2, 7):
+        A['token%d-present' % k] = has(k)
+    for k in range(2, 6):
+        A['token%d-non-empty' % k] = T.bnot(T.eq0(T.mk_len(tk(k))))
+    A['source-address-parses'] = ('call', 'parses:' + aty, (tk(2),))
+    A['destination-address-parses'] = ('call', 'parses:' + aty, (tk(3),))
+    for role, k in (('source', 4), ('destination', 5)):
+        t = tk(k)
+        A['%s-port-no-leading-zero' % role] = T.bnot(T.band_bool(('call', 'starts_with', (t, ('bytes', b'0'))), T.bnot(T.eq(t, ('bytes', b'0')))))
+        A['%s-port-no-sign' % role] = T.bnot(('call', 'starts_with', (t, ('bytes', b'+'))))
+        A['%s-port-parses' % role] = ('call', 'parses:u16', (t,))
+    A['final-token=LF'] = T.eq(('bytes', b'\n'), tk(6))
+    return A
+
+
+def c01_accept(ctx, R, rule='C01.A', soundness=True):
+    """(1) no outcome other than Ok is compatible with the spec's acceptance condition of a canonical line (no over-rejection);
+       (2) every accepting outcome entails each conjunct of that condition (no over-acceptance), at the level of token predicates."""
+    m = model(ctx, R)
+    ev, outs = m.fp_outs()
+    if not outs:
+        return
+    srcs = split_sources(outs)
+    if len(srcs) != 1:
+        return
+    src = next(iter(srcs))
+    text = m.text()
+    tk = lambda k: ('call', 'tok', (src, I(k)))
+    mus = {t for o in outs for a in o['pc'] for t in T.subterms(a) if t[0] == 'mu'}
+    n1 = n2 = 0
+    for var in ('Tcp4', 'Tcp6', 'Unknown'):
+        A = accept_conditions(src, text, var)
+        kw = {'Tcp4': tables.V1_TCP4, 'Tcp6': tables.V1_TCP6, 'Unknown': tables.V1_UNKNOWN}[var]
+        sub_ = {tk(0): ('bytes', tables.V1_PREFIX), tk(1): ('bytes', kw)}
+        if var == 'Unknown':
+            sub_[tk(2)] = ('bytes', b'\n')
+            for mu in mus:
+                sub_[mu] = I(2)        # the canonical UNKNOWN line leaves the skip loop after zero iterations
+        else:
+            sub_[tk(6)] = ('bytes', b'\n')
+        Aatoms = [fold_preds(T.rebuild(a, sub_)) for a in A.values()]
+        for o in outs:
+            if match(o['ret'], OK(ANY)):
+                continue
+            pc2 = [fold_preds(T.rebuild(a, sub_)) for a in o['pc']]
+            allatoms = [a for a in pc2 + Aatoms if a != T.TRUE]
+            clash = T.FALSE not in allatoms and solver.sat(allatoms)
+            n1 += 1
+            if clash:
+                R.inst(rule, 'canonical-%s-line-not-rejected/%s' % (var, T.short(o['ret'])[:60]), False,
+                       expected='no rejecting outcome is compatible with the acceptance condition of a well-formed %s line' % var,
+                       found='%s possible under: %s' % (T.short(o['ret'])[:80], pc_text([a for a in pc2 if a != T.TRUE], 10)), entry=m.fp, kind='over-rejection')
+        R.inst(rule, 'canonical-%s-line-not-rejected' % var, True, expected='checked against every rejecting outcome', found='%d outcomes' % len(outs), entry=m.fp, nontrivial=False)
+        # (2) soundness direction
+        for o in (ok_outcomes(outs) if soundness else []):
+            if variant_of(o) != var:
+                continue
+            sub2 = {mu: mu for mu in mus}
+            for name, c in A.items():
+                if 'non-empty' in name or name in ('nothing-after',):
+                    continue
+                if var == 'Unknown' and name in ('final-token-present', 'final-token=LF'):
+                    continue   # the final token of an UNKNOWN line has a loop-carried ordinal (checked by C15.I / C01.S)
+                ok = c in o['pc'] or solver.entails(o['pc'], c)
+                R.inst(rule, 'accept-implies/%s/%s' % (var, name), ok, expected=T.short(c)[:120], found='entailed' if ok else 'not entailed by: ' + pc_text(o['pc'], 8), entry=m.fp,
+                       kind='over-acceptance')
+                n2 += 1
+    R.floor('rejecting outcomes examined', n1, 100)
+    if soundness:
+        R.floor('acceptance conjuncts entailed', n2, 40)
+
+
+def sibling_compare(ctx, R, rule):
+    """C16.S: the text and byte entry points, analysed over the same input term, must produce corresponding results on every pair of
+    co-satisfiable outcomes: the same fields(window) call (errors wrapped in BinaryParseError::Parse on the byte side), the same early
+    error, or an error on both sides when the window is not valid text."""
+    m = model(ctx, R)
+    ps, evs, souts = m.window_outs('str')
+    pb, evb, bouts = m.window_outs('bytes')
+    if not souts or not bouts:
+        R.require(False, rule, 'siblings', 'no summary of one of the v1 entry points')
+        return 0
+    n = 0
+    for S in souts:
+        for Bt in bouts:
+            if not solver.sat(list(S['pc']) + list(Bt['pc'])):
+                continue
+            n += 1
+            s, b = S['ret'], Bt['ret']
+            utf8_neg = any(a[0] == 'not' and a[1][0] == 'call' and a[1][1] == 'is_utf8' for a in Bt['pc'])
+            utf8_pos = any(a[0] == 'call' and a[1] == 'is_utf8' for a in Bt['pc'])
+            if s[0] == 'call' and s[1] == 'abs:fields':
+                if utf8_neg:
+                    ok = match(b, ERR(ANY))        # a &str window cut on a boundary is valid UTF-8: this pairing cannot occur; an error is harmless
+                else:
+                    call = s
+                    ok = b == call or match(b, OK(('vfield', call, 'Ok', '0'))) or match(b, ERR(adtl(BPE, 'Parse', [('0', ('vfield', call, 'Err', '0'))])))
+                exp = 'the byte form of %s' % T.short(s)
+            elif match(s, ERR(ANY)):
+                e = T.adt_field(s, '0')
+                if e[0] == 'adt' and e[2] == 'HeaderTooLong':
+                    ok = match(b, ERR(adtl(BPE, 'Parse', [('0', e)])))
+                    exp = 'Err(Parse(HeaderTooLong))'
+                else:
+                    ok = match(b, ERR(ANY)) or utf8_pos   # window ends inside a character: both must fail (is_utf8(window) cannot hold then)
+                    exp = 'an error on the byte side as well'
+            else:
+                ok = False
+                exp = 'a recognised result shape'
+            R.inst(rule, 'siblings-agree/%s' % T.short(s)[:50], ok, expected=exp, found=b, entry=pb, note=None if ok else 'text side: %s under %s ; byte side under %s' % (T.short(s), pc_text(S['pc'], 5), pc_text(Bt['pc'], 6)))
+    return n
